@@ -10,6 +10,31 @@ def oracle(c, out):
             ip = o["peers"].get(name)
             if ip is None or not ip["up"] or not sp.up:
                 continue
+            if sp.sendmax:
+                # ADD-PATH: every eligible path up to send-max, each under the identifier of the Loc-RIB path
+                held = {}
+                for key, attrs in ip["view_ids"].items():
+                    pf, _, pid = key.partition("#")
+                    held.setdefault(pf, {})[int(pid)] = attrs
+                for pf in set(o["rib"]) | set(held):
+                    paths = o["rib"].get(pf, [])
+                    lids = o.get("lids", {}).get(pf, [])
+                    elig = {}
+                    for (src, _), lid in zip(paths, lids):
+                        e = spec.export(sp, pf, src)
+                        if e is not None:
+                            elig[lid] = e
+                    h = held.get(pf, {})
+                    for pid, attrs in h.items():
+                        if pid not in elig:
+                            return ("stale-route", "ADD-PATH peer %s still holds %s path-id %d %s; eligible Loc-RIB paths have ids %s" % (name, pf, pid, attrs, sorted(elig)))
+                        if elig[pid] != attrs:
+                            return ("wrong-route", "ADD-PATH peer %s holds %s path-id %d %s; the export of that path is %s" % (name, pf, pid, attrs, elig[pid]))
+                    if len(h) > sp.sendmax:
+                        return ("exceeds-send-max", "ADD-PATH peer %s holds %d paths for %s, send-max is %d" % (name, len(h), pf, sp.sendmax))
+                    if len(h) < min(sp.sendmax, len(elig)):
+                        return ("missing-route", "ADD-PATH peer %s holds %d paths for %s; %d are eligible, send-max is %d" % (name, len(h), pf, len(elig), sp.sendmax))
+                continue
             want = {}
             for pf, paths in o["rib"].items():
                 if not paths:
@@ -31,11 +56,13 @@ def oracle(c, out):
 
 def run(ctx):
     return spkcommon.run(ctx, "C01", oracle, "propagateUpdateToNeighbors/filterpath/UpdatePathAttrs/table dump vs Speaker.Model.step",
-                         ["no ADD-PATH send (send-max bookkeeping is not modelled), no export policy, IPv4 unicast only",
+                         ["ADD-PATH send (send-max bookkeeping, path-identifier stability) is NOT in the Coq model: it is decided by the direct "
+                          "oracle on the whole server only (scenarios with an ADD-PATH peer, incl. a churn generator); no export policy, IPv4 unicast only",
                           "events are applied one at a time: the per-prefix bucket locks, sender coalescing across queued batches and "
                           "concurrent fan-out are exercised only in the order the synctest scheduler produces",
                           "the oracle takes the best path from the implementation's Loc-RIB listing (best-path selection itself is C03)"],
-                         fields=("view", "best"))
+                         fields=("view", "best"), addpath=0.5,
+                         extra_cases=lambda ctx: [simlib.gen_ap_churn(ctx.rng) for _ in range(ctx.scale(2500, 60000))])
 
 
 def replay(ctx, path):
